@@ -220,6 +220,24 @@ theorem window (e : Env) (c : Chain) (raw : Bytes) (t : TxContent) (hd : decodeT
     simp only [blockAcceptanceRange] at this
     omega
 
+/-- the only memo exempt from the window is the RLP.V2 indicator: the condition of the early return of
+`CheckReplay`, as regenerated from the source, evaluated to the set of memos it holds for -/
+theorem window_exemption_src :
+    Gen.Proto.src_windowExemption = "tx.Memo == RLPV2Indicator" ∧ Gen.Proto.windowExemptMemos = [rlpV2Memo] := by
+  decide
+
+/-- **expiry**: every accepted transaction whose memo is not one of the memos the code exempts
+(`Gen.Proto.windowExemptMemos`, from the source) was created within 4320 blocks of the chain height -/
+theorem expiry (e : Env) (c : Chain) (raw : Bytes) (t : TxContent) (hd : decodeTx raw = some t)
+    (hh : 2 ≤ c.height) (hacc : accepted e c raw = true) (hm : t.memo ∉ Gen.Proto.windowExemptMemos) :
+    t.createdHeight ≤ c.height + 4320 ∧ c.height ≤ t.createdHeight + 4320 := by
+  rw [window_exemption_src.2] at hm
+  have hm' : t.memo ≠ rlpV2Memo := by simpa using hm
+  obtain ⟨t', a, g, s, snd, f⟩ := accepted_inv e c raw hacc
+  rw [f.dec] at hd; cases hd
+  have := (inWindow_iff _ _).mp (checkReplay_window e c true raw t g f.replay hh hm')
+  simpa [blockAcceptanceRange] using this
+
 /-- non-vacuity of `window`: inside the window the honest transaction is accepted (created at 1,
 chain at height 1 and — re-encoded — at height 3), and a chain 4322 blocks later refuses it -/
 example : accepted C06W.env (C06W.chain₀ false false) C06W.edRaw = true ∧
